@@ -489,7 +489,8 @@ def token_case(ctx, k):
         target = rng.randrange(n_tasks)
         others = [i for i in range(n_tasks) if i != target]
         # ---- hostile prefix of the stream: none of it may complete or disturb any task
-        hostile = rng.sample(["truncated", "garbage", "foreign-suffix", "forged-unknown", "forged-other-queue", "missing-token", "not-json-output"], rng.randint(1, 4))
+        hostile = rng.sample(["truncated", "garbage", "foreign-suffix", "forged-unknown", "forged-other-queue", "missing-token", "not-json-output", "extra-segment", "extra-segment"],
+                             rng.randint(1, 4))
         for hk in hostile:
             tok = tokens[target]
             params = {"taskToken": tok, "output": json.dumps({"from": hk})}
@@ -498,6 +499,9 @@ def token_case(ctx, k):
                 params["taskToken"] = tok[: max(4, len(tok) // 2)]
             elif hk == "garbage":
                 params["taskToken"] = rng.choice(["!!!notbase64!!!", "AAAA", b64("no-colon"), b64("a:b:c"), b64("x.waitForTaskToken"), "é"])
+            elif hk == "extra-segment":
+                # the genuine token's text with one more ':'-separated part in front of / behind it: not of the token's form (exactly <id>:<queue>)
+                params["taskToken"] = b64(rng.choice(["x:" + raw[target], raw[target] + ":x", "a:b:" + raw[target], ":" + raw[target]]))
             elif hk == "foreign-suffix":
                 cid, q = raw[target].split(":")
                 params["taskToken"] = b64(cid.replace(".waitForTaskToken", ".invoke") + ":" + q)
